@@ -127,6 +127,14 @@ type c11Call struct {
 	run  func(e *c11Env) string
 }
 
+// c11Scheme: markers no other call uses.
+var c11Scheme = func() *json.ColorScheme {
+	f := func(h string) json.ColorFormat {
+		return json.ColorFormat{Header: "<" + h + ">", Footer: "</" + h + ">"}
+	}
+	return &json.ColorScheme{Int: f("i"), Uint: f("u"), Float: f("f"), Bool: f("b"), String: f("s"), Binary: f("y"), ObjectKey: f("k"), Null: f("n")}
+}()
+
 func r2(b []byte, err error) string {
 	if err != nil {
 		return "error:" + util.ErrClass(err.Error())
@@ -183,6 +191,14 @@ func c11Calls() []c11Call {
 		{"Marshal(cyclic value)", func(e *c11Env) string { return r2(json.Marshal(cyc)) }},
 		{"MarshalIndent", func(e *c11Env) string { return r2(json.MarshalIndent(val, ">", "\t")) }},
 		{"Marshal+Colorize", func(e *c11Env) string { return r2(json.MarshalWithOption(val, json.Colorize(json.DefaultColorScheme))) }},
+		{"Marshal+Colorize(another scheme)", func(e *c11Env) string { return r2(json.MarshalWithOption(val, json.Colorize(c11Scheme))) }},
+		{"Marshal+Colorize(nil), recovered", func(e *c11Env) string {
+			var out string
+			if p, msg := util.Safe(func() { out = r2(json.MarshalWithOption(val, json.Colorize(nil))) }); p {
+				return "panic:" + util.ErrClass(msg)
+			}
+			return out
+		}},
 		{"Marshal+Debug", func(e *c11Env) string { return r2(json.MarshalWithOption(val, discard)) }},
 		{"Marshal+UnorderedMap", func(e *c11Env) string {
 			return r2(json.MarshalWithOption(map[string]int{"only": 1}, json.UnorderedMap()))
